@@ -50,6 +50,8 @@ type vTransport struct {
 
 	// slowRelease: a Write blocked by writeBlock returns only this long after Close (a kernel that takes its time)
 	slowRelease time.Duration
+	// slowReadRelease: a Read blocked at the end of the input returns only this long after Close
+	slowReadRelease time.Duration
 	closeErr    error // returned by Close
 
 	// gates: input from offset gatePos[i] on is delivered only once gateWrites[i] Write calls have been seen
@@ -100,6 +102,9 @@ func (t *vTransport) Read(p []byte) (int, error) {
 			return 0, vErrForeign
 		default:
 			<-t.closed
+			if t.slowReadRelease > 0 {
+				time.Sleep(t.slowReadRelease) // a transport whose interrupted Read takes a moment to unwind
+			}
 			return 0, vErrTransportClosed
 		}
 	}
